@@ -12,7 +12,7 @@ package majority
 //@ pred mjAccepts(l model.BiasListener, x model.MethodParameters, id string) = typeis(x, model.WeightType) && id in x.(model.WeightType).Weights
 
 //@ func (*MajorityBiasListener).OnCriteriaRemoved
-//@   property C07 C15
+//@   property C07 C15 C11
 //@   refines model.BiasListener.OnCriteriaRemoved with validParams=mjValid, coversId=mjCovers
 //@   ensures [rest_kept] result.(MajorityHeuristicParams).CurrentChoice == params.(MajorityHeuristicParams).CurrentChoice
 //@             && result.(MajorityHeuristicParams).RandomSeed == params.(MajorityHeuristicParams).RandomSeed
@@ -22,13 +22,13 @@ package majority
 //@             result.(MajorityHeuristicParams).Weights[(*leftCriteria)[k].Id] == params.(MajorityHeuristicParams).Weights[(*leftCriteria)[k].Id]
 
 //@ func (*MajorityBiasListener).OnCriterionAdded
-//@   property C07 C18
+//@   property C07 C18 C11
 //@   fnparam generator ensures 0.0 <= result && result < 1.0
 //@   refines model.BiasListener.OnCriterionAdded with validParams=mjValid, coversId=mjCovers, accepts=mjAccepts, acceptsAny=mjAcceptsAny
 //@   ensures [weight_is_fraction_of_reference] model.fractionOf(result.(model.WeightType).Weights[criterion.Id], params.(MajorityHeuristicParams).Weights[referenceCriterion.Id])
 
 //@ func (*MajorityBiasListener).Merge
-//@   property C07 C18
+//@   property C07 C18 C11
 //@   refines model.BiasListener.Merge with validParams=mjValid, coversId=mjCovers, accepts=mjAccepts, acceptsAny=mjAcceptsAny
 //@   ensures [rest_kept] result.(MajorityHeuristicParams).CurrentChoice == params.(MajorityHeuristicParams).CurrentChoice
 //@             && result.(MajorityHeuristicParams).RandomSeed == params.(MajorityHeuristicParams).RandomSeed
@@ -36,7 +36,7 @@ package majority
 //@             && result.(MajorityHeuristicParams).DrawResolution == params.(MajorityHeuristicParams).DrawResolution
 
 //@ func (*MajorityBiasListener).RankCriteriaAscending
-//@   property C15 C07
+//@   property C15 C07 C11
 //@   refines model.BiasListener.RankCriteriaAscending with validParams=mjValid, coversId=mjCovers, imp=mjImportance
 //@   ensures [importance_is_weight] forall k int :: 0 <= k && k < len(*result) ==> (*result)[k].Weight == params.MethodParameters.(MajorityHeuristicParams).Weights[(*result)[k].Id]
 
@@ -50,7 +50,7 @@ package majority
 //@      n <= 0 ? 0.0 : score(cs, a, b, n - 1) + (better(a, b, cs[n - 1].Criterion) ? cs[n - 1].Weight : 0.0)
 
 //@ func compare
-//@   property C11
+//@   property C11 C01 C09
 //@   ensures [scores] result0 == score(*criteriaWithWeights, *a1, *a2, len(*criteriaWithWeights)) && result1 == score(*criteriaWithWeights, *a2, *a1, len(*criteriaWithWeights))
 //@   loop 1 invariant [partial] a1Score == score(*criteriaWithWeights, *a1, *a2, iter) && a2Score == score(*criteriaWithWeights, *a2, *a1, iter)
 
@@ -60,14 +60,14 @@ package majority
 //@   && r.Evaluation.(MajorityEvaluation).ComparedWith == opponent && r.Evaluation.(MajorityEvaluation).ComparedAlternativeValue == opponentValue
 
 //@ func (*DrawAllowedResolver).Resolve
-//@   property C11
+//@   property C11 C01
 //@   ensures [joins_the_tie_group] result != nil && len(result.sameBuffer) == len(sameBuffer) + 1
 //@             && (forall k int :: 0 <= k && k < len(sameBuffer) ==> result.sameBuffer[k] == old(sameBuffer[k]))
 //@             && isRecord(result.sameBuffer[len(sameBuffer)], another, newEval, current.Id, currentEval)
 //@   ensures [rest_unchanged] result.worseThanCurrent == worseThanCurrent && result.current == current
 
 //@ func (*CurrentIsWinnerDrawResolver).Resolve
-//@   property C11
+//@   property C11 C01
 //@   ensures [newcomer_drops_out_alone] result != nil && len(result.worseThanCurrent) == len(worseThanCurrent) + 1
 //@             && (forall k int :: 0 <= k && k < len(worseThanCurrent) ==> result.worseThanCurrent[k] == old(worseThanCurrent[k]))
 //@             && len(result.worseThanCurrent[len(worseThanCurrent)]) == 1
@@ -75,7 +75,7 @@ package majority
 //@   ensures [rest_unchanged] result.sameBuffer == sameBuffer && result.current == current
 
 //@ func (*NewerIsWinnerResolver).Resolve
-//@   property C11
+//@   property C11 C01
 //@   ensures [current_group_drops_out] result != nil && len(result.worseThanCurrent) == len(worseThanCurrent) + 1
 //@             && (forall k int :: 0 <= k && k < len(worseThanCurrent) ==> result.worseThanCurrent[k] == old(worseThanCurrent[k]))
 //@             && len(result.worseThanCurrent[len(worseThanCurrent)]) == len(sameBuffer) + 1
@@ -84,14 +84,14 @@ package majority
 //@   ensures [newcomer_takes_over] result.current == another && len(result.sameBuffer) == 0 && fresh(result.sameBuffer)
 
 //@ func (*RandomWinnerResolver).Resolve
-//@   property C11
+//@   property C11 C01
 //@   fnparam generator ensures 0.0 <= result && result < 1.0
 //@   ensures [one_draw_decides] result != nil && (result.current == current || result.current == another) && len(result.worseThanCurrent) == len(worseThanCurrent) + 1
 //@             && (forall k int :: 0 <= k && k < len(worseThanCurrent) ==> result.worseThanCurrent[k] == old(worseThanCurrent[k]))
 
 
 //@ func (*Majority).takeBetter
-//@   property C11
+//@   property C11 C01 C09
 //@   fnparam generator ensures 0.0 <= result && result < 1.0
 //@   ensures [winner_score] result3 == ((abs(s1 - s2) <= eps || s2 < s1) ? s1 : s2)
 //@   ensures [clear_win_of_current] !(abs(s1 - s2) <= eps) && s2 < s1 ==> result2 == current && result1 == sameBuffer
@@ -114,7 +114,7 @@ package majority
 //@ pred linkAfter(e model.AlternativesRankEntry, rk [][]model.AlternativeResult, g int, j int) = e.BetterThanOrSameAs[plen(rk, g) + j - 1] == rk[g][j].Alternative.Id
 
 //@ func prepareRanking
-//@   property C01 C11
+//@   property C01 C11 C09
 //@   ensures [one_entry_each] result != nil && fresh(result) && len(*result) == base(ranking, len(ranking))
 //@   ensures [reverse_drop_out_order] forall g int, i int :: 0 <= g && g < len(ranking) && 0 <= i && i < len(ranking[g]) ==>
 //@             entryOf((*result)[len(*result) - 1 - (base(ranking, g) + i)], ranking, g, i)
